@@ -458,6 +458,37 @@ fn chk_cancel(bytes: &[u8]) -> Result<(), String> {
     }
     Ok(())
 }
+/// an archive in which a later directory entry re-addresses an id of an earlier leaf: the directory order decides, and a
+/// lookup reads exactly the range of the entry that comes last in that order
+fn chk_order_lookup(mode: &str, bytes: &[u8], id: u64, off: u64, len: u64) -> Result<(), String> {
+    let h = spec::decode_header(bytes).map_err(|e| format!("harness: {e}"))?;
+    let want = (h.data_off + off, h.data_off + off + len);
+    let rr = if mode == "sync" {
+        let sh = Shared::new(Core::new(bytes.to_vec(), 0));
+        let mut pm = res(catch_unwind(AssertUnwindSafe(|| PMTiles::from_reader(sh.clone()))), "open")?;
+        sh.0.borrow_mut().log.clear();
+        let got = res(catch_unwind(AssertUnwindSafe(|| pm.get_tile_by_id(id))), "get_tile_by_id")?;
+        if got.as_deref() != bytes.get(want.0 as usize..want.1 as usize) {
+            return Err(format!("lookup of tile {id} returns other bytes than the entry that addresses it last"));
+        }
+        let rr = read_ranges(&sh.0.borrow().log);
+        rr
+    } else {
+        let sh = AShared::new(Core::new(bytes.to_vec(), 0));
+        let mut pm = res(catch_unwind(AssertUnwindSafe(|| block_on(PMTiles::from_async_reader(sh.clone())))), "open")?;
+        sh.0.lock().unwrap().log.clear();
+        let got = res(catch_unwind(AssertUnwindSafe(|| block_on(pm.get_tile_by_id_async(id)))), "get_tile_by_id_async")?;
+        if got.as_deref() != bytes.get(want.0 as usize..want.1 as usize) {
+            return Err(format!("async lookup of tile {id} returns other bytes than the entry that addresses it last"));
+        }
+        let rr = read_ranges(&sh.0.lock().unwrap().log);
+        rr
+    };
+    if rr != vec![want] {
+        return Err(format!("lookup of tile {id} read {rr:?}; the entry that addresses it last in directory order covers [{}, {})", want.0, want.1));
+    }
+    Ok(())
+}
 /// an archive whose told directory lengths are too short (or otherwise wrong): whether or not it opens, nothing outside
 /// the header, the metadata section, the root window and the leaf section it was told about is read
 fn chk_windows_told(mode: &str, bytes: &[u8]) -> Result<(), String> {
